@@ -23,14 +23,7 @@ def chunked_trailers(case):
     return re.search(rb"\r\n[ \t]*\+?0+[ \t]*(;[^\r]*)?\r\n(?!\r\n)[^\r]", s) is not None
 
 
-def torn_chunk(case):
-    """The first request of the stream has a chunked body in which some chunk's payload is not followed
-    by CR LF (a malformed chunk terminator)."""
-    s = _stream(case)
-    e = s.find(b"\r\n\r\n")
-    if e < 0 or b"transfer-encoding" not in s[:e].lower():
-        return False
-    p = e + 4
+def _walk_torn(s, p):
     while True:
         le = s.find(b"\r\n", p)
         if le < 0:
@@ -45,8 +38,22 @@ def torn_chunk(case):
         if p + n > len(s):
             return False
         if s[p + n:p + n + 2] != b"\r\n":
-            return len(s) >= p + n + 1
+            return True          # payload complete, terminator wrong, incomplete or missing
         p += n + 2
+
+
+def torn_chunk(case):
+    """Some request of the stream has a chunked body in which a chunk's payload is complete but not
+    followed by CR LF (a malformed or cut-off chunk terminator)."""
+    s = _stream(case)
+    start = 0
+    while True:
+        e = s.find(b"\r\n\r\n", start)
+        if e < 0:
+            return False
+        if b"transfer-encoding" in s[start:e].lower() and _walk_torn(s, e + 4):
+            return True
+        start = e + 2
 
 
 CLASSES = {"chunked_trailers": chunked_trailers, "torn_chunk": torn_chunk}
